@@ -14,6 +14,10 @@ TIME_VIEW = False     # also offer every trace to the timing view model/M5time.v
 LAST_TIME_REJECTS = []
 
 
+TRUNC_FN = None       # Coq function trace -> list nat -> list nat: streamed requests whose truncated body is not licensed
+LAST_TRUNC_BAD = []
+
+
 def eval_traces(work, outs, corr_mod, check_fn, tag):
     """Per trace: (accepted?, first rejected index or None, [(idx, code, who, known)]).  With TIME_VIEW the trace must also be
     accepted by M5time (the first rejection of either view is reported; M5time's are listed in LAST_TIME_REJECTS)."""
@@ -21,14 +25,16 @@ def eval_traces(work, outs, corr_mod, check_fn, tag):
 
     def ev(i):
         tv = "first_reject M5time.step M5time.init tr 0" if TIME_VIEW else "(None : option nat)"
-        body = ("Definition tr := %s.\nDefinition R := Eval vm_compute in (first_reject step init tr 0, %s, %s tr).\n"
-                % (m5.trace_term(outs[i]["events"]), tv, check_fn))
+        trunc = [m5.rid(r["id"]) for r in outs[i]["results"] if r.get("op") == "request" and r.get("truncated") and not r.get("client_gone")]
+        tb = ("(%s tr (%s : list nat))" % (TRUNC_FN, list_lit(["%d" % x for x in trunc]))) if TRUNC_FN else "([] : list nat)"
+        body = ("Definition tr := %s.\nDefinition R := Eval vm_compute in (first_reject step init tr 0, %s, %s, %s tr).\n"
+                % (m5.trace_term(outs[i]["events"]), tv, tb, check_fn))
         return i, coq_eval(work, "%s_%d" % (tag, i), imports, body, "R")
     res = [None] * len(outs)
     with ThreadPoolExecutor(max_workers=16) as ex:
         for i, txt in ex.map(ev, range(len(outs))):
             t = txt.strip()
-            m = re.fullmatch(r"\((None|Some (\d+)(?:%nat)?), (None|Some (\d+)(?:%nat)?), (\[.*\]|nil)\)", t, re.S)
+            m = re.fullmatch(r"\((None|Some (\d+)(?:%nat)?), (None|Some (\d+)(?:%nat)?), (\[[\d;\s%nat]*\]|nil), (\[.*\]|nil)\)", t, re.S)
             if not m:
                 raise RuntimeError("unexpected result term: " + t[:300])
             rej = None if m.group(1) == "None" else int(m.group(2))
@@ -37,7 +43,9 @@ def eval_traces(work, outs, corr_mod, check_fn, tag):
                 rej = rej_t
                 LAST_TIME_REJECTS.append((tag, i, rej))
             fails = []
-            lst = m.group(5)
+            for x in re.findall(r"\d+", m.group(5)):
+                LAST_TRUNC_BAD.append((tag, i, int(x)))
+            lst = m.group(6)
             if lst not in ("[]", "nil"):
                 items = re.findall(r"\((\d+)(?:%nat)?, (\d+)(?:%N)?, (\d+)(?:%nat)?, (true|false)\)", lst)
                 if len(items) != lst.count("true") + lst.count("false"):
@@ -159,6 +167,20 @@ def run_property(prop, tier, seed, prop_file, corr_mod, check_fn, profiles, n_qu
                     "property": prop, "what": "monitor (found by the search after a correspondence break): " + codes.get(str(f[1]), "code %d" % f[1]),
                     "failure": f, "scenario": sc, "trace_context": context(o, f[0]), "seed": seed, "tier": tier})
                 return res.finish()
+        trunc_bad = [t for t in LAST_TRUNC_BAD if t[0] == prop]
+        if TRUNC_FN:
+            res.coverage["streamed_responses"] = {
+                "requests": sum(1 for o in outs for r in o["results"] if r.get("streamed")),
+                "truncated": sum(1 for o in outs for r in o["results"] if r.get("truncated")),
+                "truncated_without_a_deadline_cut": len(trunc_bad)}
+        if trunc_bad and not unknown:
+            _, i, rq = trunc_bad[0]
+            res.violation("truncated-%d-r%d" % (i, rq), {
+                "property": prop, "what": "the client received a truncated response body (streamed response, 200 already sent) although no drain "
+                                          "had cut the request off at its deadline", "request": "r%d" % rq, "scenario": scenarios[i],
+                "events_of_the_request": [e for e in outs[i]["events"] if e["g"] == "r%d" % rq or "r%d" % rq in json.dumps(e["args"])][-40:],
+                "seed": seed, "tier": tier})
+            return res.finish()
         if known:
             res.known_finding("%s: %s (%d hit(s) in this run, e.g. scenario %d event %d)" % (
                 finding_id, finding_what, len(known), known[0][0], known[0][1][0]))
